@@ -884,9 +884,13 @@ func replayOne(c *ctx, idx int) bool {
 							fmt.Sprintf("step %d: every transaction of block %d [%v] passes its real SpecialContextCheck against the pre-block state; "+
 								"processing the block gives: %s", i, bb.height, bb.items, strings.Join(bad, "; ")), caseInfo(i))
 						okAll = false
-					} else {
-						rep.Mismatch(fmt.Sprintf("step %d: the real checkers accept %v which the spec refuses (%s), and no balance goes wrong", i, bb.items, rep.Str(st, "why")), caseInfo(i))
+					} else if !pre {
+						rep.Mismatch(fmt.Sprintf("step %d: the real checkers accept %v which the spec's rule rejects, and no balance goes wrong", i, bb.items), caseInfo(i))
 						return false
+					} else {
+						// a named deviation that does no harm in this combination (e.g. the cancellation of a
+						// Returned producer followed by a withdrawal that makes it Returned again)
+						c.stats["deviation-harmless"]++
 					}
 				} else if dev {
 					rep.Mismatch(fmt.Sprintf("step %d: the spec expects the real checkers to accept every transaction of %v (deviation %s)", i, bb.items, rep.Str(st, "why")), caseInfo(i))
